@@ -529,9 +529,90 @@ def m_as_slice(eng, st, fr, t, name, rname, args):
     return _mkslice(data[it.fields[0].v:])
 
 
+FROM_FN = "from-fn-iter"
+
+
+def m_from_fn(eng, st, fr, t, name, rname, args):
+    return AggV(FROM_FN, {0: args[0]})
+
+
+def _fromfn_of(eng, st, v):
+    v = eng.resolve(st, v)
+    n = 0
+    while isinstance(v, RefV) and n < 4:
+        v = eng.resolve(st, load(Loc(v.cell, v.path)))
+        n += 1
+    return v if isinstance(v, AggV) and v.kind == FROM_FN else None
+
+
+def m_fromfn_next(eng, st, fr, t, name, rname, args):
+    it = _fromfn_of(eng, st, args[0])
+    if it is None:
+        return NotImplemented
+    return eng.call_closure(st, fr, it.fields[0], [], t)
+
+
+def m_for_each(eng, st, fr, t, name, rname, args):
+    """iter.for_each(f) for the iterator kinds the analyser knows: items are produced one by one and handed to f"""
+    out = []
+    work = [(st, 0)]
+    guard = 0
+    while work:
+        s, n = work.pop()
+        guard += 1
+        if guard > 4000 or n > 64:
+            raise fdai.TooManyPaths("for_each")
+        if s.outcome is not None:
+            out.append((s, TOP))
+            continue
+        f2 = s.frames[-1]
+        itv = eng.operand(s, f2, t["args"][0])
+        fv = eng.operand(s, f2, t["args"][1])
+        ff = _fromfn_of(eng, s, itv)
+        if ff is not None:
+            nexts = eng.call_closure(s, f2, ff.fields[0], [], t)
+        else:
+            bi = _iter_of(eng, s, itv)
+            li = _liter_of(eng, s, itv)
+            if bi is not None:
+                data = _iter_data(s, bi)
+                pos = bi.fields[0].v
+                if pos < len(data):
+                    bi.fields[0] = K(pos + 1)
+                    nexts = [(s, mk_option(RefV(Cell(K(data[pos]), "byte@%d" % pos))))]
+                else:
+                    nexts = [(s, mk_option(None))]
+            elif li is not None:
+                pos = li.fields[0].v
+                cells = li.fields[1].cells
+                if pos < len(cells):
+                    li.fields[0] = K(pos + 1)
+                    nexts = [(s, mk_option(RefV(cells[pos])))]
+                else:
+                    nexts = [(s, mk_option(None))]
+            else:
+                return NotImplemented
+        for s2, item in nexts:
+            if s2.outcome is not None:
+                out.append((s2, TOP))
+                continue
+            item = eng.resolve(s2, item)
+            if not isinstance(item, EnumV) or item.name is None:
+                out.append((s2, s2.fresh(("for_each-undecided",))))
+                continue
+            if item.name == "None":
+                out.append((s2, fdai.UNIT))
+                continue
+            f3 = s2.frames[-1]
+            fv2 = eng.operand(s2, f3, t["args"][1])
+            for s3, _ in eng.call_closure(s2, f3, fv2, [item.fields.get(0, TOP)], t):
+                work.append((s3, n + 1))
+    return out
+
+
 def m_into_iter(eng, st, fr, t, name, rname, args):
     v = eng.resolve(st, args[0])
-    if isinstance(v, AggV) and v.kind in (BYTES_ITER, "bytes-split", "bytes-takewhile"):
+    if isinstance(v, AggV) and v.kind in (BYTES_ITER, "bytes-split", "bytes-takewhile", FROM_FN):
         return v
     if _bytes_of(eng, st, args[0]) is not None:
         return m_slice_iter(eng, st, fr, t, name, rname, args)
@@ -802,6 +883,9 @@ FOLD_MODELS.update({
     "core::cmp::PartialEq::eq": m_eq_any,
     "core::cmp::PartialEq::ne": m_eq_any,
     "core::iter::IntoIterator::into_iter": m_into_iter,
+    "core::iter::from_fn": m_from_fn,
+    "<core::iter::FromFn<F> as core::iter::Iterator>::next": m_fromfn_next,
+    "core::iter::Iterator::for_each": m_for_each,
     "core::slice::Iter::as_slice": m_as_slice,
     "core::slice::starts_with": m_starts_with,
     "core::slice::ends_with": m_starts_with,
